@@ -1,0 +1,46 @@
+//! Verification hooks: a tiny registry for pause points and events.
+//!
+//! Only compiled with the `verif-hooks` cargo feature, which is off by default and
+//! only ever enabled by the external runtime-verification harness.  With no handler
+//! installed every hook is a no-op.
+
+use std::sync::{Arc, RwLock};
+
+/// Handler invoked at a named pause point.
+pub type PauseHandler = Arc<dyn Fn(&'static str) + Send + Sync>;
+/// Handler invoked for a named event with `(key, value)` fields.
+pub type EventHandler = Arc<dyn Fn(&'static str, &[(&'static str, String)]) + Send + Sync>;
+
+static PAUSE: RwLock<Option<PauseHandler>> = RwLock::new(None);
+static EVENT: RwLock<Option<EventHandler>> = RwLock::new(None);
+
+/// Installs (or removes) the pause handler.
+pub fn set_pause_handler(handler: Option<PauseHandler>) {
+    *PAUSE.write().unwrap_or_else(|e| e.into_inner()) = handler;
+}
+
+/// Installs (or removes) the event handler.
+pub fn set_event_handler(handler: Option<EventHandler>) {
+    *EVENT.write().unwrap_or_else(|e| e.into_inner()) = handler;
+}
+
+/// A named pause point.  Blocks the calling OS thread for as long as the handler wants.
+pub fn pause(name: &'static str) {
+    let handler = PAUSE.read().unwrap_or_else(|e| e.into_inner()).clone();
+    if let Some(handler) = handler {
+        handler(name);
+    }
+}
+
+/// Reports a named event.
+pub fn event(name: &'static str, fields: &[(&'static str, String)]) {
+    let handler = EVENT.read().unwrap_or_else(|e| e.into_inner()).clone();
+    if let Some(handler) = handler {
+        handler(name, fields);
+    }
+}
+
+/// Returns whether an event handler is installed (lets call sites skip formatting).
+pub fn events_enabled() -> bool {
+    EVENT.read().unwrap_or_else(|e| e.into_inner()).is_some()
+}
